@@ -79,6 +79,7 @@ struct XTerm
     }
     void extra_check(const RefEditor &ref, EvKind ev, const char *when)
     {
+        check_linecpy(ref.line, [&](char *d, size_t m) { return shadow.linecpy(d, m); }, when);
         VP_CHECK(shadow_newline == (ev == EV_NEWLINE), "readlinexx_newline", "%s: igris::readline %s an end of line, the reference editor %s", when,
                  shadow_newline ? "reported" : "did not report", ev == EV_NEWLINE ? "did" : "did not");
         if (ev == EV_NEWLINE)
